@@ -69,6 +69,11 @@ CLASSES = [
          {"name": "fired", "args": []},
          {"name": "renamed", "args": [(STR, "name", None), (INT, "gen", "1")]},
          {"name": "textChanged", "args": []},                       # overload of the notify signal
+         # overload sets that mix default-argument clones with true overloads (must be treated as ambiguous):
+         {"name": "moved", "args": [(INT, "pos", "0")]},             # entries moved(int), moved()
+         {"name": "moved", "args": [(STR, "where", None)]},          # + moved(QString): both extend moved()
+         {"name": "dialed", "args": [(INT, "a", None), (INT, "b", "0")]},   # entries dialed(int,int), dialed(int)
+         {"name": "dialed", "args": [(INT, "a", None), (STR, "s", None)]},  # + dialed(int,QString)
      ],
      "slots": [
          {"name": "bump", "args": [(INT, "n")]},
